@@ -315,6 +315,10 @@ def gen_cases(rng, tier):
         cases.append({'kind': 'random', 'workers': n, 'rows': gen_rows(5, 'some'), 'seed': 11 + n, 'close_race': True})
     for n, kinds in ((1, ['OSError']), (2, ['EOFError', 'ValueError']), (3, ['TimeoutError', 'FileNotFoundError', 'KeyError'])):
         cases.append({'kind': 'random', 'workers': n, 'rows': gen_rows(6, 'all', kinds), 'seed': 17 + n})
+    # the public step inside a Flow, with real worker processes: rows whose keys are in another order than the schema's
+    # fields, next to a resource the step does not select (round 8)
+    for ko in (None, 'rotate', 'reverse'):
+        cases.append({'kind': 'flow', 'workers': 2, 'n': 7, 'keyorder': ko})
     if tier == 'thorough':
         cases.append({'kind': 'real_processes', 'workers': 3, 'rows': gen_rows(40, 'some')})
         cases.append({'kind': 'real_processes', 'workers': 2, 'rows': gen_rows(30, 'all', ['OSError', 'ValueError', 'EOFError'])})
@@ -342,7 +346,43 @@ def check_run(rows, delivered, err):
     return None
 
 
+def flow_rows(n):
+    return [{'id': i, 'sel': i % 3 != 0, 'done': 0, 'v': 10 + i, 'w': 'w%d' % i} for i in range(n)]
+
+
+def run_flow_case(case):
+    import dataflows as DF
+
+    def rf(row):
+        row['done'] += 1
+        row['v'] = row['v'] * 2
+    pre = {'rotate': [rotate_keys], 'reverse': [reverse_keys]}.get(case.get('keyorder'), [])
+    other = [{'id': 100 + i, 'sel': True, 'done': 0, 'v': i, 'w': 'o'} for i in range(3)]
+    try:
+        with quiet():
+            rows, dp, _ = DF.Flow(flow_rows(case['n']), other, *pre,
+                                  DF.parallelize(rf, num_processors=case['workers'], resources='res_1', predicate=lambda r: r['sel'])).results()
+    except Exception as e:
+        return {'problem': 'the flow failed: %s: %s' % (type(e).__name__, str(e)[:200]), 'schedules': 1}
+    want = []
+    for r in flow_rows(case['n']):
+        if r['sel']:
+            r.update(done=1, v=r['v'] * 2)
+        want.append(r)
+    got = sorted(rows[0], key=lambda r: (str(type(r.get('id'))), str(r.get('id'))))
+    problem = None
+    if got != want:
+        bad = [g for g in got if g not in want][:2]
+        problem = 'parallelize in a flow (row keys %s): delivered %d rows for %d, e.g. %r where the row function gives %r' % (
+            case.get('keyorder') or 'in schema order', len(got), len(want), bad, [w for w in want if w not in got][:2])
+    elif rows[1] != other:
+        problem = 'parallelize in a flow: the resource that was not selected came out as %r' % (rows[1][:2],)
+    return {'problem': problem, 'schedules': 1}
+
+
 def run_impl(case):
+    if case['kind'] == 'flow':
+        return run_flow_case(case)
     rows = case['rows']
     n = case['workers']
     if case['kind'] == 'real_processes':
@@ -391,7 +431,7 @@ def run_impl(case):
 
 def oracle(case, out):
     if out.get('problem'):
-        return '%d workers, %d rows: %s' % (case['workers'], len(case['rows']), out['problem'])
+        return '%d workers, %d rows: %s' % (case['workers'], len(case['rows']) if 'rows' in case else case['n'], out['problem'])
     return None
 
 
@@ -417,7 +457,7 @@ def coq_term(case, out):
 
 
 def nontrivial(case, out):
-    return any(r['sel'] for r in case['rows'])
+    return case['kind'] == 'flow' or any(r['sel'] for r in case['rows'])
 
 
 def evidence_extra(case, out):
